@@ -39,6 +39,7 @@ type c11Expect struct {
 type c11FieldExpect struct {
 	offset, width                                  uint32
 	accessType, accessAttrib, lockType, updateType uint8
+	conn                                           *amlFieldElem // connection in effect (nil = none)
 }
 
 func c11JoinPath(scope, name string) string {
@@ -63,8 +64,12 @@ func c11Collect(objs []amlObj, lexScope string, out map[string]c11Expect) error 
 			acc, lock, upd := flags&0xf, (flags>>4)&1, (flags>>5)&3
 			var attrib uint8
 			var off uint32
-			for _, e := range o.Elems {
+			var conn *amlFieldElem
+			for ei := range o.Elems {
+				e := o.Elems[ei]
 				switch e.K {
+				case "connbuf", "connname":
+					conn = &o.Elems[ei]
 				case "reserved":
 					off += e.Bits
 				case "access":
@@ -74,7 +79,7 @@ func c11Collect(objs []amlObj, lexScope string, out map[string]c11Expect) error 
 					if _, dup := out[p]; dup {
 						return fmt.Errorf("duplicate %s", p)
 					}
-					out[p] = c11Expect{obj: o, kind: "fieldunit", fld: &c11FieldExpect{off, e.Bits, acc, attrib, lock, upd}}
+					out[p] = c11Expect{obj: o, kind: "fieldunit", fld: &c11FieldExpect{off, e.Bits, acc, attrib, lock, upd, conn}}
 					off += e.Bits
 				}
 			}
@@ -265,6 +270,28 @@ func c11CheckObject(tree *ObjectTree, o *Object, e c11Expect, path string) error
 		if fe.offset != w.offset || fe.width != w.width || fe.accessType != w.accessType || fe.accessAttrib != w.accessAttrib || fe.lockType != w.lockType || fe.updateType != w.updateType {
 			return fmt.Errorf("%s: field unit offset=%d width=%d access=%d attrib=%d lock=%d update=%d; program encodes offset=%d width=%d access=%d attrib=%d lock=%d update=%d",
 				path, fe.offset, fe.width, fe.accessType, fe.accessAttrib, fe.lockType, fe.updateType, w.offset, w.width, w.accessType, w.accessAttrib, w.lockType, w.updateType)
+		}
+		if w.conn == nil {
+			if fe.connectionIndex != InvalidIndex {
+				return fmt.Errorf("%s: field unit has a connection (object %d), the program declares none before it", path, fe.connectionIndex)
+			}
+			return nil
+		}
+		co := tree.ObjectAt(fe.connectionIndex)
+		if co == nil || co.opcode != pOpIntConnection {
+			return fmt.Errorf("%s: field unit is declared after a Connection but refers to no connection object", path)
+		}
+		cargs := c11Args(tree, co)
+		if len(cargs) != 1 {
+			return fmt.Errorf("%s: connection object has %d args, want 1", path, len(cargs))
+		}
+		got, _ := cargs[0].value.([]byte)
+		if w.conn.K == "connbuf" {
+			if cargs[0].opcode != pOpIntByteList || !bytes.Equal(got, w.conn.Data) {
+				return fmt.Errorf("%s: connection buffer %v, program encodes %v", path, got, w.conn.Data)
+			}
+		} else if cargs[0].opcode != pOpIntNamePath || string(got) != w.conn.Name {
+			return fmt.Errorf("%s: connection name %q, program has %q", path, got, w.conn.Name)
 		}
 		return nil
 	case "device", "thermal":
